@@ -36,6 +36,88 @@ def import_mido():
     return mido
 
 
+# ---------------------------------------------------------------- stirring
+
+_LIVE = []
+
+
+def stir():
+    """Exercise failing and half-finished operations of every feature before a
+    batch of conformance work.  Nothing is judged here: the point is that each
+    property must hold *whatever the library did earlier in the process*, so
+    state that leaks out of a failed load, an abandoned iteration, another live
+    parser, ... shows up as a disagreement with the specification in the rows
+    that follow.  Everything used here is thrown away (or kept alive, unused,
+    in _LIVE)."""
+    import io
+    mido = import_mido()
+
+    def quiet(f):
+        try:
+            return f()
+        except Exception:
+            return None
+
+    M = mido.Message
+    # decoding order: one-byte system messages first, then the others
+    for b in ([0xf6], [0xf8], [0xf3, 5], [0xf2, 1, 2], [0xf1, 0x35], [0x90, 1, 2], [0xf0, 1, 0xf7]):
+        quiet(lambda: M.from_bytes(b))
+    for b in ([0x90, 200, 1], [0x90, 1], [], [0xf0, 0x80, 0xf7], [0xf7], [0x20]):
+        quiet(lambda: M.from_bytes(b))
+    quiet(lambda: M('note_on', note=300))
+    quiet(lambda: M('nonesuch'))
+    quiet(lambda: M('note_on').copy(type='note_off', bogus=1))
+    quiet(lambda: M.from_str('note_on channel=99'))
+    quiet(lambda: mido.MetaMessage('set_tempo', tempo=-1))
+    quiet(lambda: mido.MetaMessage('key_signature', key='H'))
+    quiet(lambda: mido.parse_all([0x90, 1]))
+    # live, undrained parsers and tokenizers
+    if len(_LIVE) < 4:
+        def live():
+            from mido.tokenizer import Tokenizer
+            p = mido.Parser()
+            p.feed([0xf8, 0x91, 7])
+            t = Tokenizer()
+            t.feed([0xfa, 0xb2, 3])
+            _LIVE.extend([p, t])
+        quiet(live)
+    # files: failed loads, failed saves, abandoned iterations
+    hdr = b'MThd\x00\x00\x00\x06\x00\x01\x00\x01\x01\xe0'
+    trk = b'\x00\x90\x3c\x40\x00\xff\x01\x01a\x00\xff\x2f\x00'
+    good = hdr + b'MTrk' + len(trk).to_bytes(4, 'big') + trk
+    bad = hdr + b'MTrk\x00\x00\x00\x08\x00\x90\x3c\xc8\x00\xff\x2f\x00'
+    quiet(lambda: mido.MidiFile(file=io.BytesIO(good[:-3])))
+    quiet(lambda: mido.MidiFile(file=io.BytesIO(bad)))
+    quiet(lambda: mido.MidiFile(file=io.BytesIO(bad), clip=True))
+    quiet(lambda: mido.MidiFile(file=io.BytesIO(b'RIFF' + good)))
+    quiet(lambda: mido.MidiFile(file=io.BytesIO(good), charset='no-such-charset'))
+    quiet(lambda: mido.MidiFile(file=io.BytesIO(good), charset='utf-16'))
+
+    def failed_saves():
+        for t in ([M('note_on', time=0.5)], [M('note_on', time=-1)],
+                  [mido.MetaMessage('text', text='\u65e5')], [M('clock')]):
+            mid = mido.MidiFile(charset='ascii')
+            mid.tracks.append(mido.MidiTrack(t))
+            quiet(lambda: mid.save(file=io.BytesIO()))
+    quiet(failed_saves)
+
+    def abandoned():
+        mid = mido.MidiFile(file=io.BytesIO(good))
+        it = iter(mid)
+        next(it)
+        pl = mid.play()
+        next(pl)
+        mg = iter(mido.merge_tracks(mid.tracks))
+        next(mg)
+        return len(mid), mid.length
+    quiet(abandoned)
+
+
+def _stirred(worker, batch):
+    stir()
+    return worker(batch)
+
+
 # ---------------------------------------------------------------- scratch
 
 _scratch_dirs = []
@@ -405,7 +487,7 @@ class ParallelReplay:
 
     def flush(self):
         if self.batch:
-            self.pending.append(self.pool.apply_async(self.worker, (self.batch,)))
+            self.pending.append(self.pool.apply_async(_stirred, (self.worker, self.batch)))
             self.batch = []
             while len(self.pending) > 4 * NCPU:
                 self._collect(self.pending.pop(0))
@@ -438,7 +520,7 @@ class ParallelReplay:
     def map(self, items):
         """Convenience: run worker over pre-built batches (no TLC stream)."""
         for it in items:
-            self.pending.append(self.pool.apply_async(self.worker, (it,)))
+            self.pending.append(self.pool.apply_async(_stirred, (self.worker, it)))
         return self.finish()
 
 
